@@ -5,6 +5,7 @@ From Dimod Require Import Base.Util Model.Poly Model.HPoly Model.Samples
 From Dimod Require Model.Adj Model.Expr Proofs.AdjEnergy Model.EnergyCy Proofs.EnergyCyFacts.
 From Dimod Require Model.DqmLoop Proofs.DqmLoopFacts Model.HPolyLoop Proofs.HPolyLoopFacts Model.PyBqm Proofs.PyBqmFacts.
 From Dimod Require Gen.Gen_View Model.ViewOps Proofs.ViewOpsFacts.
+From Dimod Require Gen.Gen_AsSamples Model.AsSamples Proofs.AsSamplesFacts.
 Import ListNotations.
 Open Scope Qc_scope.
 
@@ -268,6 +269,130 @@ Theorem C01_view_sample_conversion :
   ViewOpsFacts.in_view_domain d x -> ViewOps.view_sample_value d x = ViewOps.base_value d x.
 Proof. exact ViewOpsFacts.view_sample_value_spec. Qed.
 Print Assumptions C01_view_sample_conversion.
+
+
+(* ---------- sampleset.py as_samples: the samples_like normalisation as the code runs it (singledispatch branches and the
+   five handlers; dispatch facts generated fail-closed by translators/as_samples_dispatch.py). Every accepted form yields the
+   intended value table; all forms of one assignment table agree; energies do not depend on the form ---------- *)
+Theorem C01_as_samples_table :
+  forall (il : nat -> nat) (s : AsSamples.slike) (rows : list (list Qc)) (labels : list nat),
+  AsSamples.as_samples il s = Some (rows, labels) ->
+  length rows = length (AsSamples.spec_rows il s) /\
+  Forall (fun r : list Qc => length r = length labels) rows /\
+  (forall i v : nat,
+   (i < length rows)%nat ->
+   In v labels ->
+   AsSamples.table_of (rows, labels) v i = AsSamples.assoc_value (nth i (AsSamples.spec_rows il s) []) v).
+Proof. exact AsSamplesFacts.as_samples_table. Qed.
+Print Assumptions C01_as_samples_table.
+
+Theorem C01_as_samples_full_shape :
+  forall (il : nat -> nat) (s : AsSamples.slike) (a : AsSamples.arr) (labels : list nat),
+  AsSamples.as_samples_full il s = AsSamples.Ok (a, labels) -> AsSamples.arr_ncols a = length labels.
+Proof. exact AsSamplesFacts.as_samples_full_shape. Qed.
+Print Assumptions C01_as_samples_full_shape.
+
+Theorem C01_as_samples_forms_agree :
+  forall (il : nat -> nat) (L : list nat) (R : list (list Qc)),
+  NoDup L ->
+  Forall (fun r : list Qc => length r = length L) R ->
+  (forall ms : list (list (nat * Qc)),
+   Forall2 (fun (m : list (nat * Qc)) (r : list Qc) => Permutation.Permutation m (combine L r)) ms R ->
+   (exists o : list (list Qc) * list nat,
+      AsSamples.as_samples il (AsSamples.SList (map AsSamples.SMap ms)) = Some o /\
+      AsSamplesFacts.table_agrees o L R) /\
+   (exists o : list (list Qc) * list nat,
+      AsSamples.as_samples il (AsSamples.SIter (map AsSamples.SMap ms)) = Some o /\
+      AsSamplesFacts.table_agrees o L R)) /\
+  (forall L' : list nat,
+   (forall v : nat, In v L -> In v L') ->
+   (exists o : list (list Qc) * list nat,
+      AsSamples.as_samples il
+        (AsSamples.STup (AsSamples.TFArr (AsSamples.A2 (length L') (map (reindex_row L' L) R))) L') =
+      Some o /\ AsSamplesFacts.table_agrees o L R) /\
+   (exists o : list (list Qc) * list nat,
+      AsSamples.as_samples il (AsSamples.SSet L' (map (reindex_row L' L) R)) = Some o /\
+      AsSamplesFacts.table_agrees o L R)) /\
+  (forall (r : list Qc) (m : list (nat * Qc)),
+   R = [r] ->
+   Permutation.Permutation m (combine L r) ->
+   (exists o : list (list Qc) * list nat,
+      AsSamples.as_samples il (AsSamples.SMap m) = Some o /\ AsSamplesFacts.table_agrees o L R) /\
+   (forall L' : list nat,
+    NoDup L' ->
+    (forall v : nat, In v L <-> In v L') ->
+    exists o : list (list Qc) * list nat,
+      AsSamples.as_samples il (AsSamples.STup (AsSamples.TFMap m) L') = Some o /\
+      AsSamplesFacts.table_agrees o L R)).
+Proof. exact AsSamplesFacts.as_samples_forms_agree. Qed.
+Print Assumptions C01_as_samples_forms_agree.
+
+Theorem C01_energies_cy_as_samples_form_independent :
+  forall (il : nat -> nat) (m : Adj.qm) (vars : list nat) (s1 s2 : AsSamples.slike)
+    (R1 : list (list Qc)) (L1 : list nat) (R2 : list (list Qc)) (L2 : list nat),
+  Adj.Inv m ->
+  length vars = Adj.nvars m ->
+  AsSamples.as_samples il s1 = Some (R1, L1) ->
+  AsSamples.as_samples il s2 = Some (R2, L2) ->
+  (forall v : nat, In v vars -> In v L1) ->
+  (forall v : nat, In v vars -> In v L2) ->
+  Forall2 (fun r1 r2 : list Qc => forall v : nat, In v vars -> row_value L1 r1 v = row_value L2 r2 v) R1
+    R2 -> EnergyCy.energies_cy m vars L1 R1 = EnergyCy.energies_cy m vars L2 R2.
+Proof. exact AsSamplesFacts.energies_cy_as_samples_form_independent. Qed.
+Print Assumptions C01_energies_cy_as_samples_form_independent.
+
+Theorem C01_energies_cy_as_samples_forms :
+  forall (il : nat -> nat) (m : Adj.qm) (vars L : list nat) (R : list (list Qc))
+    (s1 s2 : AsSamples.slike) (o1 o2 : list (list Qc) * list nat),
+  Adj.Inv m ->
+  length vars = Adj.nvars m ->
+  (forall v : nat, In v vars -> In v L) ->
+  AsSamples.as_samples il s1 = Some o1 ->
+  AsSamples.as_samples il s2 = Some o2 ->
+  (forall v : nat, In v L -> In v (snd o1)) ->
+  (forall v : nat, In v L -> In v (snd o2)) ->
+  AsSamplesFacts.table_agrees o1 L R ->
+  AsSamplesFacts.table_agrees o2 L R ->
+  EnergyCy.energies_cy m vars (snd o1) (fst o1) = EnergyCy.energies_cy m vars (snd o2) (fst o2).
+Proof. exact AsSamplesFacts.energies_cy_forms. Qed.
+Print Assumptions C01_energies_cy_as_samples_forms.
+
+Theorem C01_as_samples_list_of_dicts_none_iff :
+  forall (il : nat -> nat) (m1 : list (nat * Qc)) (ms : list (list (nat * Qc))),
+  AsSamples.as_samples il (AsSamples.SList (map AsSamples.SMap (m1 :: ms))) = None <->
+  (exists m : list (nat * Qc), In m ms /\ ~ (forall v : nat, In v (map fst m) <-> In v (map fst m1))).
+Proof. exact AsSamplesFacts.as_samples_list_of_dicts_none_iff. Qed.
+Print Assumptions C01_as_samples_list_of_dicts_none_iff.
+
+Theorem C01_as_samples_tuple_none_iff :
+  forall (il : nat -> nat) (w : nat) (rows : list (list Qc)) (labels : list nat),
+  rows <> [] ->
+  w <> 0%nat ->
+  Forall (fun r : list Qc => length r = w) rows ->
+  (AsSamples.as_samples il (AsSamples.STup (AsSamples.TFArr (AsSamples.A2 w rows)) labels) = None <->
+   length labels <> w) /\
+  (length labels <> w ->
+   AsSamples.as_samples_full il (AsSamples.STup (AsSamples.TFArr (AsSamples.A2 w rows)) labels) =
+   AsSamples.Err AsSamples.ValueError).
+Proof. exact AsSamplesFacts.as_samples_tuple_none_iff. Qed.
+Print Assumptions C01_as_samples_tuple_none_iff.
+
+Theorem C01_as_samples_deprecated_form :
+  forall (il : nat -> nat) (kv : list (nat * Qc)) (L' : list nat),
+  NoDup L' ->
+  (forall v : nat, In v L' -> In v (map fst kv)) ->
+  AsSamples.as_samples_full il (AsSamples.STup (AsSamples.TFMap kv) L') =
+  AsSamples.Ok (length L', [map (AsSamples.assoc_value kv) L'], L').
+Proof. exact AsSamplesFacts.as_samples_deprecated. Qed.
+Print Assumptions C01_as_samples_deprecated_form.
+
+Theorem C01_as_samples_deprecated_none_iff :
+  forall (il : nat -> nat) (kv : list (nat * Qc)) (labels : list nat),
+  NoDup labels ->
+  AsSamples.as_samples il (AsSamples.STup (AsSamples.TFMap kv) labels) = None <->
+  (exists v : nat, In v labels /\ ~ In v (map fst kv)).
+Proof. exact AsSamplesFacts.as_samples_deprecated_none_iff. Qed.
+Print Assumptions C01_as_samples_deprecated_none_iff.
 
 
 (* non-vacuity *)
